@@ -132,6 +132,10 @@ def catalogue():
     add("reduce_argmax", "reduction", lambda a: a.argmax(_lead(a)), lambda a: _need_lead(a) and _num(a) and not bool(np.any(np.isnan(np.asarray(a.values, dtype=float)))))
     add("reduce_func", "reduction", lambda a: a.reduce(np.sum, dim=_lead(a)), lambda a: _need_lead(a) and _num(a))
     add("reduce_all_lead", "reduction", lambda a: a.sum(lead_dims(a)), lambda a: len(lead_dims(a)) >= 2 and _num(a))
+    # reductions over the grid dimension itself: the result has no grid dimension left but is still an array on that grid
+    add("sum_over_grid_dim", "reduction", lambda a: a.sum(gdim(a)), lambda a: gdim(a) is not None and _num(a))
+    add("max_over_grid_dim", "reduction", lambda a: a.max(gdim(a)), lambda a: gdim(a) is not None and _num(a))
+    add("mean_over_everything", "reduction", lambda a: a.mean(), _num)
     # cumulative and rolling along non-grid dimensions
     add("cumsum", "cumulative", lambda a: a.cumsum(_lead(a)), lambda a: _need_lead(a) and _num(a))
     add("cumprod", "cumulative", lambda a: a.cumprod(_lead(a)), lambda a: _need_lead(a) and _num(a))
@@ -310,6 +314,11 @@ def cases(tier, seed):
             for pre in ("transpose_rev", "isel_list", "copy_deep"):
                 yield {"mesh": {"family": "polyhedron", "name": "prism6", "ops": [["partial", [len(nm), 0.7, "random"]]] if len(nm) % 2 else []},
                        "kind": kind, "dtype": "float64", "lead": [2, 3], "program": [pre, nm], "dseed": len(nm) + len(pre)}
+    # ... and every kind of copy after every operation that changes what the array is attached to / has no grid dimension left
+    for kind in ("n_face", "n_node"):
+        for nm in ("integrate", "gradient", "difference", "topological_mean", "remap_nn", "get_dual", "grid_isel_kw", "grid_where_drop", "sum_over_grid_dim", "max_over_grid_dim", "mean_over_everything"):
+            for cp in ("copy_deep", "copy_default", "deepcopy"):
+                yield {"mesh": {"family": "polyhedron", "name": "prism6", "ops": []}, "kind": kind, "dtype": "float64", "lead": [2], "program": [nm, cp, "np_sqrt_abs"], "dseed": len(nm) + len(cp)}
     n = 420 if tier == "quick" else 100000
     allops = names + OWN + OWN  # own operations twice as likely
     for i in range(n):
